@@ -101,7 +101,14 @@ def build_case(rng, A, kind):
         return None
     # "sibling_import_oid_only": the IMPORTS clause carries an object identifier, the loaded module's header has none
     # (matched by name)
-    place = rng.choice(["local", "sibling_oid", "sibling_oid_byname", "sibling_noid", "sibling_oid_only", "sibling_import_oid_only"])
+    # "two_hop_*": the names are imported from a middle module that declares nothing itself but imports them from the
+    # declaring module (with / without object identifiers on either hop)
+    place = rng.choice(["local", "sibling_oid", "sibling_oid_byname", "sibling_noid", "sibling_oid_only", "sibling_import_oid_only",
+                        "two_hop_oid", "two_hop_noid"])
+    two_hop = place.startswith("two_hop")
+    if two_hop:
+        place2 = place
+        place = "sibling_oid" if place == "two_hop_oid" else "sibling_noid"
     sib_name = rng.choice(["Sibling", "Common-Defs", "Lib"])
     sib_oid = [["both", "iso", 1], ["num", rng.choice([2, 3, 840])], ["num", rng.choice([1, 5, 113549])]]
     if sib_name == A["name"]:
@@ -177,6 +184,18 @@ def build_case(rng, A, kind):
                     m["imports"] = ([copy.deepcopy(imp)] + m["imports"]) if front else (m["imports"] + [copy.deepcopy(imp)])
             mods_ref = [A, sib]
             mods_lit = [lit_A, copy.deepcopy(sib)]
+            if two_hop and dang != "not_imported":
+                mid_oid = [["both", "iso", 1], ["num", 7], ["num", rng.choice([11, 12])]] if place2 == "two_hop_oid" and rng.random() < 0.7 else None
+                mid = {"name": "Middle-Defs", "oid": mid_oid, "tagdefault": None, "imports": [copy.deepcopy(imp)], "empty_imports": False,
+                       "items": [["type", "Relay", None, ["BOOLEAN"]]]}
+                for m in (A, lit_A):
+                    for im in m["imports"]:
+                        if im[0] == imp[0] and im[1] == imp[1]:
+                            im[1] = "Middle-Defs"
+                            im[2] = copy.deepcopy(mid_oid)
+                mods_ref = [A, mid, sib]
+                mods_lit = [lit_A, copy.deepcopy(mid), copy.deepcopy(sib)]
+                place = place2
             if dang == "not_loaded":
                 mods_ref = [A]
                 mods_lit = [lit_A]
@@ -231,7 +250,7 @@ class C12(Spec):
     rule = ("modules of the C07 generator; every non-empty kind of use site (INTEGER range bounds incl. the 0 of 0..MAX, SIZE "
             "numbers incl. SIZE(0..MAX), DEFAULT literals of kind integer/boolean/string/hstring/bstring); subsets of size 1, 2, 3, "
             "half, all; placement local / sibling with OID (import by OID+name, by name only, by OID only under another name) / "
-            "sibling without OID; optional decoy module with the same names; all load orders by shuffling; dangling (4 kinds), "
+            "sibling without OID / two hops through a middle module that only re-imports the names; optional decoy module with the same names; all load orders by shuffling; dangling (4 kinds), "
             "wrong-kind (boolean, string, octet string) and negative-SIZE references. non-trivial = the referencing variant "
             "resolved to a model (subst) or was rejected (others); distinct = distinct case line")
     assumptions_text = ["the integer dump of Model<Asn<Resolved>> in harness/a1h/src/parse.rs"]
